@@ -66,6 +66,7 @@ pub trait JitterOps {
     fn drain_reads(&self) -> Vec<u64>;
     fn pool(&self) -> u64;
     fn cursor_pos(&self) -> usize;
+    fn seek(&self, pos: usize);
 }
 
 /// parse "index: N" / "half_used: b" out of BlockRng's Debug text; None if absent
@@ -422,6 +423,9 @@ impl<F: Fn() -> u64 + Send + Sync + Clone + 'static> JitterOps for DJitter<F> {
     }
     fn cursor_pos(&self) -> usize {
         self.cur.pos.load(Ordering::SeqCst)
+    }
+    fn seek(&self, pos: usize) {
+        self.cur.pos.store(pos, Ordering::SeqCst)
     }
 }
 
